@@ -4,7 +4,7 @@ from vlib import veccheck as VC, vec as V
 PROPERTY = 'C09'
 LEVEL = 'proof'
 
-STRONG = {'push', 'pushm', 'pushs', 'emb', 'embs', 'ins', 'insm', 'inss', 'emp', 'emps', 'apr', 'apri', 'apn', 'apv', 'apvs',
+STRONG = {'push', 'pushm', 'pushs', 'emb', 'embs', 'ins', 'insm', 'inss', 'emp', 'emps', 'empa', 'apr', 'apri', 'apn', 'apv', 'apvs',
           'rsv', 'shr', 'cct', 'rsz', 'rszv', 'rszs'}
 KMAX = 9          # throw indices tried per scenario
 
